@@ -220,7 +220,7 @@ def generate(rng, tier) -> dict:
         sc["mode"] = "sim"
         sc["shape"] = gen_shape(k, rng)
         sc["schedule"] = {"threads": rng.randint(1, 4), "chunk": rng.choice([0, 0, 1, 2]), "seed": rng.randrange(1 << 30),
-                          "p": rng.choice([0.02, 0.05, 0.1, 0.3, 0.5])}
+                          "p": rng.choice([0.02, 0.05, 0.1, 0.3, 0.5]), "knobs": rng.choice([None, None, 1, 16, 64])}
     return sc
 
 
@@ -244,7 +244,7 @@ def concretise(sc, out):
     if sc.get("mode") != "sim" or "passes" not in art:
         return None
     sc = copy.deepcopy(sc)
-    sc["schedule"] = {"threads": sc["schedule"]["threads"], "work": art["work"], "passes": art["passes"]}
+    sc["schedule"] = {"threads": sc["schedule"]["threads"], "work": art["work"], "passes": art["passes"], "knobs": sc["schedule"].get("knobs")}
     return sc
 
 
@@ -336,7 +336,10 @@ def execute(sc, ctx) -> None:
         T = int(sch.get("threads", 1))
         # reference: the SAME outlined source on one virtual thread
         a_ref = [a.copy() if isinstance(a, np.ndarray) else a for a in args0]
-        r_ref, sim1, _ = V.run_kernel(disp, a_ref, {"threads": 1})
+        r_ref, sim1, _ = V.run_kernel(disp, a_ref, {"threads": 1, "knobs": sch.get("knobs")})
+        if sim1.knobs_changed:
+            ctx.probe("size-thresholds-shrunk")
+            ctx.observations["knobs:" + ",".join(sorted(sim1.knobs_changed))] += 1
         if sim1.npar < 1:
             if k in EXTRA:
                 ctx.observations["extra-kernel-is-serial"] += 1
